@@ -612,6 +612,28 @@ def check_stale_counted(chk, prog):
                         break
                     stack.extend(f.succ[x])
                 ok = bool(inc_blocks) and not bad
+                if bool(inc_blocks) and bad:
+                    # counting before staling is just as good: an increment that every path of the SAME loop iteration to the call passes
+                    from .rebuild_common import natural_loops
+                    loops = [(hh, bb_) for (hh, bb_) in natural_loops(f) if c.bb in bb_]
+                    H, body = min(loops, key=lambda x: len(x[1])) if loops else (0, set(f.live))
+                    for I in inc_blocks:
+                        if I not in body or I == c.bb:
+                            continue
+                        seen2 = set()
+                        st2 = [H]
+                        reach = False
+                        while st2:
+                            x = st2.pop()
+                            if x in seen2 or x == I:
+                                continue
+                            seen2.add(x)
+                            if x == c.bb:
+                                reach = True
+                                break
+                            st2.extend(sx for sx in f.succ[x] if sx in body and sx != H)
+                        if not reach:
+                            ok = True
             root = f.root or f.name
             arm = ""
             for g in guards(f, c.bb):
